@@ -19,6 +19,7 @@ use crate::schema::{InnerDecimalSchema, NamespaceRef, UuidSchema};
 use crate::{
     AvroResult,
     bigdecimal::serialize_big_decimal,
+    decimal::Decimal,
     error::Details,
     schema::{
         DecimalSchema, EnumSchema, FixedSchema, Name, RecordSchema, ResolvedSchema, Schema,
@@ -203,6 +204,14 @@ pub(crate) fn encode_internal<W: Write, S: Borrow<Schema> + Debug>(
         Value::Bytes(bytes) => match *schema {
             Schema::Bytes | Schema::Uuid(UuidSchema::Bytes) => encode_bytes(bytes, writer),
             Schema::Fixed { .. } => write_all_bytes(writer, bytes.as_slice()),
+            // validation accepts bytes for a decimal: they are its two's-complement representation
+            Schema::Decimal(_) => encode_internal(
+                &Value::Decimal(Decimal::from(bytes)),
+                schema,
+                names,
+                enclosing_namespace,
+                writer,
+            ),
             _ => Err(Details::EncodeValueAsSchemaError {
                 value_kind: ValueKind::Bytes,
                 supported_schema: vec![SchemaKind::Bytes, SchemaKind::Fixed, SchemaKind::Uuid],
@@ -225,7 +234,17 @@ pub(crate) fn encode_internal<W: Write, S: Borrow<Schema> + Debug>(
             }
             .into()),
         },
-        Value::Fixed(_, bytes) => write_all_bytes(writer, bytes.as_slice()),
+        Value::Fixed(_, bytes) => match schema {
+            // validation accepts a fixed for a decimal: write it in the decimal's own representation
+            Schema::Decimal(_) => encode_internal(
+                &Value::Decimal(Decimal::from(bytes)),
+                schema,
+                names,
+                enclosing_namespace,
+                writer,
+            ),
+            _ => write_all_bytes(writer, bytes.as_slice()),
+        },
         Value::Enum(i, _) => encode_int(*i as i32, writer),
         Value::Union(idx, item) => {
             if let Schema::Union(ref inner) = *schema {
